@@ -307,6 +307,11 @@ func (i *Lifecycler) checkRingHealthForReadiness(ctx context.Context) error {
 				"ring", i.RingName, "err", err)
 			return err
 		}
+
+		// The instance itself must be registered: a ring in which it is missing says nothing about it.
+		if _, ok := ringDesc.Ingesters[i.ID]; !ok {
+			return fmt.Errorf("instance %s not found in the ring", i.ID)
+		}
 	} else {
 		instance, ok := ringDesc.Ingesters[i.ID]
 		if !ok {
